@@ -23,7 +23,7 @@ for id in $ids; do
     ./lib/build_inst.sh "$id" || { rc=2; continue; }
     EXTRA+=("build/inst-$id/map.json")
   fi
-  python3 lib/mkoverlay.py --out-dir "$ROOT/build/rw-$id" "${EXTRA[@]}" > "$OV" || { rc=2; continue; }
+  python3 lib/mkoverlay.py --harness "$id" --out-dir "$ROOT/build/rw-$id" "${EXTRA[@]}" > "$OV" || { rc=2; continue; }
   TAGS=verif
   [ -f "h/$id/TAGS" ] && TAGS="verif,$(cat h/$id/TAGS)"
   go build -tags "$TAGS" -overlay "$OV" -o "build/bin/$id" "./h/$id" || rc=2
